@@ -158,6 +158,25 @@ func TestC20(t *testing.T) {
 							r.Fail("path", "memoised-ignores-config", fmt.Sprintf("a Name %s that answered for island 8/depth 1/1000 answers %s for island 7/depth %d/%d, a fresh object answers %s", sh(tr), got, depth, fpl, p1), desc)
 						}
 					}
+					// one object used for BOTH questions, in both orders: each answer must equal the fresh-object answer
+					if depth == 2 && (fpl == 16 || fpl == 2000) {
+						fi := mkS(tr).GetFolderNumber(1000)
+						a := mkS(tr)
+						ai := a.GetFolderNumber(1000)
+						ap := a.GetFullHashPath("/data", 7, depth, fpl)
+						b := mkS(tr)
+						bp := b.GetFullHashPath("/data", 7, depth, fpl)
+						bi := b.GetFolderNumber(1000)
+						if ap != p1 || bp != p1 {
+							r.Fail("path", "location-depends-on-earlier-island-question", fmt.Sprintf("Name %s: location asked after the island number is %s, asked first %s, fresh object %s", sh(tr), ap, bp, p1), desc)
+						}
+						if ai != fi || bi != fi {
+							r.Fail("island", "island-depends-on-earlier-location-question", fmt.Sprintf("Name %s: island (N=1000) asked first %d, asked after the location %d, fresh object %d", sh(tr), ai, bi, fi), desc)
+						}
+						if c := mkC(tr).GetIslandID(1000); uint64(bi) != c {
+							r.Fail("island", "sdk-server-differ", fmt.Sprintf("island of %s with N=1000 on a server Name that answered a location first: %d, sdk %d", sh(tr), bi, c), desc)
+						}
+					}
 					if prev, dup := seen[p1]; dup {
 						pt := triples[prev]
 						d := "other"
